@@ -28,6 +28,7 @@ sys.path.insert(0, os.path.dirname(os.path.abspath(__file__)))
 import xgen  # noqa: E402
 
 XMLLINT = '/root/miniconda/bin/xmllint'
+LIBXML2 = '/root/miniconda/lib/libxml2.so.2'
 HERE = os.path.dirname(os.path.abspath(__file__))
 
 
@@ -67,24 +68,47 @@ def run_expat(pool, docs, nproc=16):
     return res
 
 
-def run_xmllint(work, docs, nproc=16):
-    d = os.path.join(work, 'files')
-    shutil.rmtree(d, ignore_errors=True)
-    os.makedirs(d)
-    for i, doc in enumerate(docs):
-        with open(os.path.join(d, '%07d.xml' % i), 'wb') as f:
-            f.write(doc)
-    script = 'for f; do %s --noout --nonet "$f" >/dev/null 2>&1; echo "$f $?"; done' % XMLLINT
-    names = '\n'.join('%07d.xml' % i for i in range(len(docs))) + '\n'
-    out = subprocess.run(['xargs', '-P', str(nproc), '-n', '400', 'sh', '-c', script, '_'],
-                         input=names.encode(), capture_output=True, cwd=d).stdout.decode()
-    res = [None] * len(docs)
-    for line in out.split('\n'):
-        if line:
-            f, rc = line.split()
-            res[int(f[:7])] = int(rc)
-    assert all(r is not None for r in res)
-    shutil.rmtree(d, ignore_errors=True)
+_LX = None
+
+
+def _libxml2():
+    """The very shared library the xmllint binary links against, in-process.
+    (Spawning one xmllint per input is ~100x slower in this sandbox; every
+    disagreement and a random sample are re-checked with the real binary.)"""
+    global _LX
+    if _LX is None:
+        import ctypes
+        L = ctypes.CDLL(LIBXML2)
+        L.xmlReadMemory.restype = ctypes.c_void_p
+        L.xmlReadMemory.argtypes = [ctypes.c_char_p, ctypes.c_int, ctypes.c_char_p, ctypes.c_char_p, ctypes.c_int]
+        L.xmlFreeDoc.argtypes = [ctypes.c_void_p]
+        _LX = L
+    return _LX
+
+
+# XML_PARSE_NOERROR | NOWARNING | NONET | COMPACT | BIG_LINES  (xmllint's defaults + --nonet)
+LX_OPTS = (1 << 5) | (1 << 6) | (1 << 11) | (1 << 16) | (1 << 22)
+
+
+def lx_chunk(ds):
+    L = _libxml2()
+    out = []
+    for d in ds:
+        doc = L.xmlReadMemory(d, len(d), b'in.xml', None, LX_OPTS)
+        if doc:
+            L.xmlFreeDoc(doc)
+            out.append(0)
+        else:
+            out.append(4)
+    return out
+
+
+def run_xmllint(pool, docs, nproc=16):
+    k = max(1, len(docs) // (nproc * 4))
+    chunks = [docs[i:i + k] for i in range(0, len(docs), k)]
+    res = []
+    for r in pool.map(lx_chunk, chunks):
+        res.extend(r)
     return res
 
 
@@ -105,6 +129,25 @@ def xmllint_msg(work, doc):
 
 # ------------------------------------------------- known deviations (NOTES.md)
 
+WFCLI = None
+
+
+def recheck(text):
+    """our verdict letter for a repaired variant of a document"""
+    d = text.encode('utf-8')
+    return run_wfcli(WFCLI, [d])[0][0]
+
+
+VERSION_RE = re.compile(r'^(\ufeff?<\?xml\s+version\s*=\s*)(["\'])([^"\']*)\2')
+
+
+def repair_version(text):
+    m = VERSION_RE.match(text)
+    if m and not re.fullmatch(r'1\.[0-9]+', m.group(3)):
+        return text[:m.start(3)] + '1.0' + text[m.end(3):]
+    return None
+
+
 def explain_expat(doc, ours, ex):
     """ours: list of fields from wfcli; ex: expat result string.
     Returns the name of a documented expat deviation, or None."""
@@ -113,10 +156,74 @@ def explain_expat(doc, ours, ex):
         f = dict(x.split('=') for x in ours[1:])
         if f['nonascii'] == '1' and f['safe4'] == '0':
             return 'expat-4th-edition-names'
+    if ours[0] == 'I' and ours[1] == 'bad-xmldecl' and ex == 'W':
+        fixed = repair_version(text)
+        if fixed is not None and re.fullmatch(r'[A-Za-z0-9_.:\-]*', VERSION_RE.match(text).group(3)) and recheck(fixed) in 'WO':
+            return 'expat-lenient-version-num'
     return None
 
 
+def lx_ok(text):
+    return lx_chunk([text.encode('utf-8')])[0] == 0
+
+
+def xmllint_repair(doc, ours, rc, msg):
+    """One documented libxml2 deviation that applies to this disagreement:
+    returns (name, repaired_text or None).  The repaired text has the trigger
+    of the deviation removed and nothing else changed."""
+    text = doc.decode('utf-8')
+    if ours[0] == 'W' and rc != 0:
+        if 'Fragment not allowed' in msg:
+            return 'libxml2-fragment-in-system-id-fatal', None
+        if 'tag mismatch' in msg and 'ns=0' in ours:
+            fixed = text.replace('\r\n', '\n')
+            if fixed != text:
+                return 'libxml2-nonqname-before-crlf-bug', fixed
+        m = re.search(r'Name (\S+) is not XML Namespace compliant', msg)
+        if m and ':' in m.group(1):
+            return 'libxml2-attlist-attr-qname-fatal', text.replace(m.group(1), 'zz')
+    if ours[0] == 'I' and rc == 0:
+        off = int(ours[3])
+        head, tail = doc[:off].decode('utf-8', 'ignore'), doc[off:].decode('utf-8', 'ignore')
+        if ours[1] == 'text-in-prolog':
+            before = head.rstrip(' \t\r\n')
+            if tail.startswith('[') and before.endswith('>'):
+                return 'libxml2-internal-subset-after-doctype-gt', before[:-1] + tail
+        if ours[1] == 'bad-xmldecl':
+            fixed = repair_version(text)
+            if fixed is not None:
+                return 'libxml2-lenient-version-num', fixed
+        if ours[1] == 'bad-doctype' and head.endswith('<!DOCTYPE'):
+            return 'libxml2-doctype-no-space', head + ' ' + tail
+        if ours[1] == 'pe-in-internal-subset-markup' and ours[2] == 'entity-value':
+            # the violation stands on its own (WFC: PEs in Internal Subset); libxml2 only
+            # warns about the undeclared PE and then stops checking entity declarations
+            if 'not defined' in msg:
+                return 'libxml2-pe-ref-in-entity-value-not-fatal', None
+            return 'libxml2-pe-ref-in-entity-value-not-fatal', head + '&#37;' + tail[1:]
+        if ours[1] == 'bad-entity-decl' and tail.startswith('>') and re.search(r'NDATA\s+$', head):
+            return 'libxml2-ndata-name-missing', head + 'n' + tail
+    return None, None
+
+
 def explain_xmllint(doc, ours, rc, msg):
+    """Name(s) of documented libxml2 deviations that fully account for the
+    disagreement (after removing their triggers all three agree), or None."""
+    names = []
+    for _ in range(4):
+        name, fixed = xmllint_repair(doc, ours, rc, msg)
+        if name is None:
+            return None
+        names.append(name)
+        if fixed is None:
+            return '+'.join(names)
+        d2 = fixed.encode('utf-8')
+        o2 = run_wfcli(WFCLI, [d2])[0]
+        rc2 = lx_chunk([d2])[0]
+        if o2[0] == 'O' or (o2[0] == 'W') == (rc2 == 0):
+            return '+'.join(names)
+        doc, ours, rc = d2, o2, rc2
+        msg = xmllint_msg('/tmp', doc)[1]
     return None
 
 
@@ -262,8 +369,57 @@ def unit_test_inputs():
 
 
 def gen_chunk(args):
-    seed, count = args
-    return xgen.generate(seed, count)
+    seed, count, heavy = args
+    return xgen.generate(seed, count, dtd_heavy=heavy)
+
+
+def mutate_fixed_chunk(args):
+    import random
+    seed, seeds, k = args
+    r = random.Random(seed)
+    out = []
+    for d in seeds:
+        for _ in range(k):
+            if r.random() < 0.5:
+                out.append(('fix-tok', xgen.mutate_tokens(r, d, r.choice(seeds))))
+            else:
+                out.append(('fix-chr', xgen.mutate_chars(r, d)))
+    return out
+
+
+def charclass_docs():
+    """one document per code point and syntactic position"""
+    items = []
+    for cp in range(0x110000):
+        if 0xD800 <= cp <= 0xDFFF:
+            continue
+        c = chr(cp)
+        items.append(('cc-start', '<' + c + '/>'))
+        items.append(('cc-name', '<a' + c + '/>'))
+        if cp < 0x3000 or cp >= 0xFF00 or (cp & 0xFF) in (0, 0xFF, 0xFE, 0xFD, 1):
+            items.append(('cc-char', '<a>' + c + '</a>'))
+            items.append(('cc-attr', '<a x="' + c + '"/>'))
+            items.append(('cc-comment', '<!--' + c + '--><a/>'))
+            items.append(('cc-pi', '<?p ' + c + '?><a/>'))
+            items.append(('cc-cdata', '<a><![CDATA[' + c + ']]></a>'))
+        if cp < 0x400:
+            items.append(('cc-pubid', '<!DOCTYPE a PUBLIC "' + c + '" "s"><a/>'))
+            items.append(('cc-pubid1', "<!DOCTYPE a PUBLIC '" + c + "' 's'><a/>"))
+            items.append(('cc-sysid', '<!DOCTYPE a SYSTEM "' + c + '"><a/>'))
+            items.append(('cc-enc', '<?xml version="1.0" encoding="' + c + '"?><a/>'))
+            items.append(('cc-enc2', '<?xml version="1.0" encoding="u' + c + '"?><a/>'))
+            items.append(('cc-ver', '<?xml version="1.' + c + '"?><a/>'))
+            items.append(('cc-nmtoken', '<!DOCTYPE a [<!ATTLIST a x (' + c + ') #IMPLIED>]><a/>'))
+            items.append(('cc-entval', '<!DOCTYPE a [<!ENTITY e "' + c + '">]><a/>'))
+            items.append(('cc-ref-dec', '<a>&#%d;</a>' % cp))
+            items.append(('cc-after-name', '<a' + c + '>'  + '</a>'))
+            items.append(('cc-prolog', c + '<a/>'))
+            items.append(('cc-epilog', '<a/>' + c))
+            items.append(('cc-subset', '<!DOCTYPE a [' + c + ']><a/>'))
+            items.append(('cc-aftereq', '<a x=' + c + '"1"/>'))
+        if cp % 97 == 0 or cp < 0x400 or (cp & 0xFFFF) >= 0xFFF0:
+            items.append(('cc-ref-hex', '<a>&#x%X;</a>' % cp))
+    return items
 
 
 # ------------------------------------------------------------------ main
@@ -276,11 +432,17 @@ def main():
     ap.add_argument('--work', default='/tmp/wfx')
     ap.add_argument('--wfcli', default='/tmp/tgt-wf/release/examples/wfcli')
     ap.add_argument('--nasty-only', action='store_true')
+    ap.add_argument('--dtd-heavy', action='store_true', help='always a DOCTYPE, many entities, ASCII names')
+    ap.add_argument('--charclasses', action='store_true', help='exhaustive per-code-point sweep')
+    ap.add_argument('--mutate-fixed', type=int, default=0, help='K mutants of every hand-written input')
     ap.add_argument('--no-xmllint', action='store_true')
     ap.add_argument('--save', default=None, help='append disagreement inputs (repr) to this file')
     ap.add_argument('--show', type=int, default=40)
+    ap.add_argument('--sample', type=int, default=100, help='re-check every Nth input with the xmllint binary')
     args = ap.parse_args()
     os.makedirs(args.work, exist_ok=True)
+    global WFCLI
+    WFCLI = args.wfcli
     pool = multiprocessing.Pool(16)
 
     stats = collections.Counter()
@@ -295,7 +457,7 @@ def main():
         tb = time.time()
         ex = run_expat(pool, docs)
         tc = time.time()
-        xl = [None] * len(docs) if args.no_xmllint else run_xmllint(args.work, docs)
+        xl = [None] * len(docs) if args.no_xmllint else run_xmllint(pool, docs)
         td = time.time()
         print('    phases: wfcli %.1fs expat %.1fs xmllint %.1fs' % (tb - ta, tc - tb, td - tc), file=sys.stderr)
         for (kind, _), doc, o, e, x in zip(items, docs, ours, ex, xl):
@@ -320,8 +482,17 @@ def main():
             else:
                 stats['expat-agree'] += 1
             if x is not None:
+                if args.sample and (stats['total'] % args.sample) == 0:
+                    rc, _ = xmllint_msg(args.work, doc)
+                    stats['xmllint-binary-sampled'] += 1
+                    if (rc == 0) != (x == 0):
+                        stats['xmllint-binary-vs-library-MISMATCH'] += 1
+                        print('BINARY/LIBRARY MISMATCH %r' % doc, file=sys.stderr)
                 if ours_wf != (x == 0):
                     rc, msg = xmllint_msg(args.work, doc)
+                    if (rc == 0) != (x == 0):
+                        stats['xmllint-binary-vs-library-MISMATCH'] += 1
+                        print('BINARY/LIBRARY MISMATCH %r' % doc, file=sys.stderr)
                     why = explain_xmllint(doc, o, rc, msg)
                     if why:
                         stats['xmllint-explained'] += 1
@@ -334,13 +505,25 @@ def main():
 
     fixed = [('nasty', d) for d in NASTY] + [('unit', d) for d in unit_test_inputs()]
     process(fixed)
+    if args.charclasses:
+        items = charclass_docs()
+        for i in range(0, len(items), 200000):
+            process(items[i:i + 200000])
+            print('... charclasses %d/%d' % (i, len(items)), file=sys.stderr)
+    if args.mutate_fixed:
+        seeds = [d for _, d in fixed]
+        per = (len(seeds) + 15) // 16
+        chunks = pool.map(mutate_fixed_chunk, [(args.seed * 7919 + i, seeds[i * per:(i + 1) * per], args.mutate_fixed) for i in range(16)])
+        items = [it for c in chunks for it in c]
+        for i in range(0, len(items), 100000):
+            process(items[i:i + 100000])
     if not args.nasty_only:
         done = 0
         seed = args.seed * 1000003
         while done < args.n:
             b = min(args.batch, args.n - done)
             per = (b + 15) // 16
-            chunks = pool.map(gen_chunk, [(seed + i, per) for i in range(16)])
+            chunks = pool.map(gen_chunk, [(seed + i, per, args.dtd_heavy) for i in range(16)])
             seed += 16
             items = [it for c in chunks for it in c][:b]
             process(items)
@@ -367,7 +550,7 @@ def main():
     for k, v in seen.most_common(60):
         print(v, k)
     if args.save:
-        with open(args.save, 'a', encoding='utf-8') as f:
+        with open(args.save, 'a', encoding='utf-8', newline='\n') as f:
             for who, doc, o, other in unexplained:
                 f.write('%s\t%s\t%s\t%r\n' % (who, ' '.join(o[:3]), other, doc.decode('utf-8', 'replace')))
     print('elapsed %.0fs' % (time.time() - t0))
